@@ -1,24 +1,29 @@
 #!/bin/sh
-# For every seeded mutation: apply it to /repo's working tree, run the quick (then, if
-# quiet, the thorough) check of the property it breaks, restore the tree.
+# For every seeded mutation: apply it to a scratch worktree of /repo (never to /repo
+# itself), run the quick (then, if quiet, the thorough) check of the property it
+# breaks against that worktree (VERIF_REPO), remove the worktree.  Evidence of these
+# runs goes to a scratch directory, not to /verif/evidence.
 # usage: eval_seeds.sh [seed ids...]   (default: all under /verif/seeded)
 cd /verif
 SEEDS="$@"
 [ -z "$SEEDS" ] && SEEDS=$(ls seeded)
+W=/tmp/wt/eval_$$
+E=/tmp/wt/eval_ev_$$
+mkdir -p $E
+git -C /repo worktree add --detach $W HEAD -q || exit 2
 for s in $SEEDS; do
   prop=$(python3 -c "import json;print(json.load(open('seeded/$s/meta.json'))['property'])")
-  git -C /repo apply /verif/seeded/$s/patch.diff || { echo "$s APPLY-FAILED"; continue; }
+  git -C $W apply /verif/seeded/$s/patch.diff || { echo "$s APPLY-FAILED"; continue; }
   t0=$(date +%s)
-  ./bin/vcheck run $prop --tier quick > /tmp/seed_$s.log 2>&1; rc=$?
+  VERIF_REPO=$W VERIF_EVIDENCE_DIR=$E ./bin/vcheck run $prop --tier quick > /tmp/seed_$s.log 2>&1; rc=$?
   tier=quick
   if [ $rc -eq 0 ]; then
-    ./bin/vcheck run $prop --tier thorough > /tmp/seed_$s.log 2>&1; rc=$?; tier=thorough
+    VERIF_REPO=$W VERIF_EVIDENCE_DIR=$E ./bin/vcheck run $prop --tier thorough > /tmp/seed_$s.log 2>&1; rc=$?; tier=thorough
   fi
-  git -C /repo checkout -- . 
+  git -C $W checkout -- .
   t1=$(date +%s)
   lab=$(grep -o 'replay=[^ ]*' /tmp/seed_$s.log | head -1 | sed 's#.*/##')
   echo "$s property=$prop tier=$tier rc=$rc $(($t1-$t0))s $(grep -c '^VIOLATION' /tmp/seed_$s.log) violations, $(grep -c '^CHECK-BROKEN' /tmp/seed_$s.log) broken $lab"
 done
-# evidence written while a mutation was applied is not evidence of the unchanged tree
-git -C /verif checkout -- evidence
-git -C /repo status --short | head -3
+git -C /repo worktree remove --force $W
+rm -rf $E
